@@ -107,9 +107,12 @@ def build(d):
         return build_schema(d["cls"], d["props"])
     if k == "expr":      # a DSL / literal expression (bounded complement zoo): readable in replay files
         try:
-            import threading
+            import threading, collections
             return eval(d["src"], {"schema": schema, "optional": optional, "Nil": Nil, "object": object, "datetime": _dt.datetime,
-                                   "date": _dt.date, "UUID": _uuid.UUID, "Lock": threading.Lock, "float": float, "__builtins__": {}})
+                                   "date": _dt.date, "UUID": _uuid.UUID, "Lock": threading.Lock, "float": float,
+                                   "OrderedDict": collections.OrderedDict, "defaultdict": collections.defaultdict,
+                                   "list": list, "int": int, "str": str, "dict": dict, "bytearray": bytearray,
+                                   "__builtins__": {}})
         except DeclarationError as e:
             raise Unreachable(f"DSL refuses the expression: {e}")
     if k == "optional":
@@ -354,6 +357,15 @@ def oracle_C02(inp):
     return got != want, f"validate ok={got}, spec conforms={want}; S={S!r} v={v!r}"
 
 
+def _sr(x) -> str:
+    """repr for the oracle's own messages (the value under test may be unprintable, e.g. an int of 5000 digits)"""
+    try:
+        t = repr(x)
+    except Exception as e:
+        return f"<{type(x).__name__} whose repr raises {type(e).__name__}>"
+    return t if len(t) <= 300 else t[:300] + "..."
+
+
 def oracle_C08(inp):
     if "error" in inp:
         return oracle_format(inp)
@@ -363,9 +375,9 @@ def oracle_C08(inp):
         r = validate(S, v)
         msgs = [e.format(d42.validation.Formatter()) for e in r.get_errors()]
     except Exception as e:
-        return True, f"validate/format raised {e!r}; S={S!r} v={v!r}"
+        return True, f"validate/format raised {e!r}; S={_sr(S)} v={_sr(v)}"
     if any((not isinstance(m, str)) or m == "" for m in msgs):
-        return True, f"empty message; S={S!r} v={v!r}"
+        return True, f"empty message; S={_sr(S)} v={_sr(v)}"
     try:
         ok = validate_or_fail(S, v)
         if ok is not True or msgs:
@@ -377,7 +389,7 @@ def oracle_C08(inp):
             return True, "not one line per error"
     except Exception as e:
         return True, f"validate_or_fail raised {e!r}"
-    return False, f"total; S={S!r} v={v!r}"
+    return False, f"total; S={_sr(S)} v={_sr(v)}"
 
 
 def error_fact_true(e, sub) -> bool:
@@ -691,10 +703,23 @@ def _generators():
         def random_str(self, length, alphabet):
             return "".join(self.random_choice(alphabet) for _ in range(length))
 
+    class Pick(Extreme):
+        """every choice takes element k of the sequence (modulo its length): with k over 0..127 every single member of
+        every alphabet / alternative list of up to 128 items is drawn at least once"""
+        def __init__(self, k: int) -> None:
+            self.hi = False
+            self.k = k
+
+        def random_choice(self, sequence):
+            return sequence[self.k % len(sequence)]
+
     gens = []
     for hi in (False, True):
         rnd = Extreme(hi)
         gens.append((f"extreme-{'max' if hi else 'min'}", Generator(rnd, RegexGenerator(rnd)), None))
+    for k in range(1, 128):
+        rnd = Pick(k)
+        gens.append((f"choice-{k}", Generator(rnd, RegexGenerator(rnd)), None))
     for seed in range(12):
         rnd = Random()
         gens.append((f"seed-{seed}", Generator(rnd, RegexGenerator(rnd)), seed))
@@ -799,6 +824,43 @@ def oracle_C04(inp, meta=None):
     return False, f"S % v = {R!r} pins v"
 
 
+def perturbations(v, depth: int = 3):
+    """one-step perturbations of a plain value at every depth: an element / key added, dropped, duplicated or replaced by
+    a value of another kind"""
+    other = [None, "x", 0, True, 1.5, [], {}, b"b"]
+    if depth <= 0:
+        return
+    if isinstance(v, list):
+        for o in other:
+            yield v + [o]
+            yield [o] + v
+        if v:
+            yield v[:-1]
+            yield v[1:]
+            yield v + [v[-1]]
+        for i, x in enumerate(v):
+            for o in other[:4]:
+                if type(o) is not type(x):
+                    yield v[:i] + [o] + v[i + 1:]
+            for y in perturbations(x, depth - 1):
+                yield v[:i] + [y] + v[i + 1:]
+    elif isinstance(v, dict):
+        yield {**v, "__extra__": 0}
+        for k in list(v):
+            h = dict(v)
+            del h[k]
+            yield h
+            for o in other[:4]:
+                if type(o) is not type(v[k]):
+                    yield {**v, k: o}
+            for y in perturbations(v[k], depth - 1):
+                yield {**v, k: y}
+    else:
+        for o in other:
+            if type(o) is not type(v):
+                yield o
+
+
 def oracle_C05(inp, meta=None):
     S, v = build(inp["schema"]), build(inp["value"])
     if has_placeholder(v):
@@ -807,6 +869,8 @@ def oracle_C05(inp, meta=None):
     if st != "ok":
         return False, f"S % v does not succeed ({st})"
     ws = ([build(inp["w"])] if "w" in inp else []) + [v] + [g for _, g in _samples(R) if not isinstance(g, Exception)]
+    import itertools as _it
+    ws += list(_it.islice(perturbations(v), 400))
     for w in ws:
         if not validate(R, w).has_errors() and validate(S, w).has_errors():
             return True, f"S % v = {R!r} accepts {w!r} but S = {S!r} rejects it: {validate(S, w).get_errors()}"
@@ -817,7 +881,7 @@ def oracle_C12(inp, meta=None):
     S, v = build(inp["schema"]), build(inp["value"])
     st, R = _substitute(S, v)
     if st == "other-error":
-        return True, f"substitute({S!r}, {v!r}) raised {R!r} (not SubstitutionError)"
+        return True, f"substitute({_sr(S)}, {_sr(v)}) raised {R!r} (not SubstitutionError)"
     if st != "ok":
         return False, "SubstitutionError"
     try:
@@ -1119,8 +1183,14 @@ def _fake_in_subprocess(exprs, hashseed):
         "from d42 import schema, optional, fake\n"
         "from d42.utils import make_required\n"
         "from d42.generation import Random\n"
+        "import enum\n"
+        "class RunId(str): pass\n"
+        "class Stage(str, enum.Enum):\n"
+        "    DEV = 'dev'\n"
+        "class Level(enum.IntEnum):\n"
+        "    LOW = 3\n"
         "out = []\n"
-        "for k in (0, 42, 'seed'):\n"
+        "for k in (0, 42, 'seed', b'bytes', 2.5, True, 2**70, RunId('run-7'), Stage.DEV, Level.LOW, bytearray(b'ba')):\n"
         "    Random().set_seed(k)\n"
         "    row = []\n"
         "    for e in %r:\n"
@@ -1440,8 +1510,18 @@ def _name_item(x, names):
     raise Unreachable("not a class item")
 
 
-def check_pattern(pattern: str, want_index_error: bool = False):
-    """(violated, detail) for one pattern over all scripted RNG schedules"""
+def check_pattern(pattern: str, want_index_error: bool = False, max_repeat=None):
+    """(violated, detail) for one pattern over all scripted RNG schedules, with the default cap for open-ended
+    quantifiers and with other values of that constructor parameter"""
+    caps = [None] + ([max_repeat] if isinstance(max_repeat, int) and not isinstance(max_repeat, bool) and -5 <= max_repeat <= 300 else []) + [64, 3]
+    for cap in caps:
+        bad, detail = _check_pattern(pattern, want_index_error, cap)
+        if bad:
+            return bad, detail
+    return False, detail
+
+
+def _check_pattern(pattern: str, want_index_error: bool, cap):
     import random as _r
     from d42.generation import RegexGenerator
     try:
@@ -1453,7 +1533,9 @@ def check_pattern(pattern: str, want_index_error: bool = False):
         if seed is not None:
             _r.seed(seed)
         try:
-            s = RegexGenerator(rnd).generate(pattern)
+            rg = RegexGenerator(rnd) if cap is None else RegexGenerator(rnd, max_repeat=cap)
+            s = rg.generate(pattern)
+            name = name if cap is None else f"{name}, max_repeat={cap}"
         except ValueError as e:
             if supported:
                 return True, f"RegexGenerator.generate({pattern!r}) raised {e!r} [{name}] although every construct is supported"
@@ -1474,11 +1556,17 @@ def check_pattern(pattern: str, want_index_error: bool = False):
 
 def oracle_C09(inp, meta=None):
     meta = meta or {}
+    mr = None
+    if "max_repeat" in inp:
+        try:
+            mr = build(inp["max_repeat"])
+        except Unreachable:
+            mr = None
     if "pattern" in inp:
         p = build(inp["pattern"])
         if not isinstance(p, str):
             raise Unreachable("pattern is not a str")
-        return check_pattern(p, bool(meta.get("expect_index_error")))
+        return check_pattern(p, bool(meta.get("expect_index_error")), mr)
     names = {str(v): k for k, v in (meta.get("sre_const") or {}).items()}
     if not names:
         raise Unreachable("no opcode table")
@@ -1487,7 +1575,7 @@ def oracle_C09(inp, meta=None):
     if fn == "_generate":
         node = _name_tree((build(inp["opcode"]), v), names)
     elif fn == "_generate_pattern":
-        return check_pattern(unparse_tree([_name_tree(n, names) for n in v], names))
+        return check_pattern(unparse_tree([_name_tree(n, names) for n in v], names), False, mr)
     elif fn == "_generate_not_in":
         node = ("IN", [("NEGATE", None)] + [_name_item(i, names) for i in v])
     elif fn == "_get_category_alphabet":
@@ -1501,7 +1589,7 @@ def oracle_C09(inp, meta=None):
             raise Unreachable("no node-level replay for " + fn)
         code = [k for k, n in names.items() if n == opname][0]
         node = _name_tree((int(code), v), names)
-    return check_pattern(unparse_tree([node], names))
+    return check_pattern(unparse_tree([node], names), False, mr)
 
 
 ORACLES.update({"C09": oracle_C09})
